@@ -41,3 +41,8 @@ Definition gm_prop (c : gm_case) : bool :=
 From Verif Require Import Model.GlyphName.
 Definition gname_case := (list N * option text)%type.
 Definition gname_agree (c : gname_case) : bool := opt_eqb text_eqb (glyph_name (fst c)) (snd c).
+
+(* codepoints.from_filename on stems that can match at their first character *)
+From Verif Require Import Model.FileName.
+Definition fname_case := (text * option (list N))%type.
+Definition fname_agree (c : fname_case) : bool := opt_eqb (list_eqb N.eqb) (from_filename (fst c)) (snd c).
